@@ -147,6 +147,7 @@ func (p *Prog) verifyFunc(t target, findings []*Finding) (fr *FuncResult) {
 					o.goal = fmt.Sprintf("(=> %s %s)", r.st.pc, goal)
 					o.ctx = c
 					o.hist = r.st.hist
+					o.Bounded = c.bounded
 					c.skolemize(o, r.st.pc, goal)
 					c.obls = append(c.obls, o)
 				}
